@@ -25,6 +25,7 @@ pub fn shell_instr(i: &Instr) -> String
     match i
     {
         Instr::EmitCopy { t, src } => format!("cat {} > {}", src, t),
+        Instr::EmitCopyP { t, src } => format!("cp -p {} {}", src, t),
         Instr::EmitConst { t, tag } => format!("printf '%s' '{}' > {}", tag, t),
         Instr::EmitMix { t, tag, srcs } =>
         {
